@@ -15,6 +15,7 @@ raises - it is never turned into a verdict).
 Measurement coins (the other random bits of the library) are decided fair by C06 (legs N*_L*:
 `coin-not-fair`, `outcome-unreachable`); nothing is repeated here."""
 import itertools
+import os
 import collections
 import numpy as np
 from .. import ref, dom, lib, rng, stab
@@ -882,6 +883,91 @@ def fn_torch(items):
     return {'n': n, 'nt': nt, 'viol': viol, 'extra': extra, 'samples': samples}
 
 
+def fn_n3_torch(items):
+    """item = [first-pair coins (12), max_extra]: torchclifford random_clifford(3) below a first anticommuting pair
+    (g1, g2) drawn by the scripted torch.randint.  Every leaf is a symplectic 6x6 table whose rows 0,1 are (g1, g2)
+    (so the 63*32 subtrees are pairwise disjoint and 2016 * 720 = |Sp(6,2)|); within each coin-length class the
+    subtree holds exactly 720 distinct tables, each drawn equally often."""
+    tu = lib.torch_mods()['tu']
+    n = nt = 0
+    viol = []
+    extra = {}
+    samples = []
+    N = 3
+    want_pair = np.zeros((6, 6), dtype=np.int64)
+    for k in range(3):
+        want_pair[2 * k, 2 * k + 1] = want_pair[2 * k + 1, 2 * k] = 1
+    for item in items:
+        pc_, max_extra = item
+        pc_ = tuple(pc_)
+        st = {}
+        by = collections.defaultdict(collections.Counter)
+        crash = None
+        try:
+            for a, b, res in explore2(run_torch(lambda: lib.t2n(tu.random_clifford(N)).astype(np.uint8).tobytes()), st, rootA=pc_, max_a=24 + max_extra):
+                by[len(a)][res] += 1
+        except Harness:
+            raise
+        except Exception as e:
+            crash = '%s: %s' % (type(e).__name__, e)
+        if crash is not None:
+            viol.append(V('C16/torch/random_clifford/N3/raises', item, 'torchclifford random_clifford(3) raised %s' % crash))
+            continue
+        n += st['leaves']
+        nt += st['leaves']
+        extra['torch_N3_leaves'] = extra.get('torch_N3_leaves', 0) + st['leaves']
+        extra['torch_N3_truncated_subtrees'] = extra.get('torch_N3_truncated_subtrees', 0) + st['truncated']
+        allkeys = set()
+        for cnt in by.values():
+            allkeys |= set(cnt)
+        badtab = None
+        heads = set()
+        for kbytes in allkeys:
+            g = np.frombuffer(kbytes, dtype=np.uint8).reshape(6, 6).astype(np.int64)
+            if g.max() > 1 or not (ref.anti_mat(g) == want_pair).all():
+                badtab = g
+                break
+            heads.add((tuple(int(x) for x in g[0]), tuple(int(x) for x in g[1])))
+        if badtab is not None:
+            viol.append(V('C16/torch/random_clifford/N3/invalid', item,
+                          'torchclifford random_clifford(3) below the first pair %s returns a table violating the CCR' % (list(pc_),), badtab.tolist()))
+            continue
+        # (a) algorithm-independent bound: a uniform sampler gives every table total probability 1/|Sp(6,2)|, so the mass a
+        #     table collects inside ONE subtree can never exceed that
+        mass = collections.Counter()
+        for cls, cnt in by.items():
+            for kbytes, c in cnt.items():
+                mass[kbytes] += c * 2.0 ** -cls
+        top, topm = max(mass.items(), key=lambda kv: kv[1])
+        extra['torch_N3_max_table_mass_x_order'] = max(extra.get('torch_N3_max_table_mass_x_order', 0), round(topm * dom.SP_ORDER[3], 4))
+        if topm > (1 + 1e-9) / dom.SP_ORDER[3]:
+            viol.append(V('C16/torch/random_clifford/N3/not-uniform', item,
+                          'torchclifford random_clifford(3): the coin strings below the first draws %s alone give one table probability %.3g > 1/|Sp(6,2)| = %.3g (%d distinct tables in this subtree)' % (
+                              list(pc_), topm, 1.0 / dom.SP_ORDER[3], len(mass)),
+                          {'table': np.frombuffer(top, dtype=np.uint8).reshape(6, 6).tolist(), 'probability_at_least': topm}, 1.0 / dom.SP_ORDER[3]))
+            continue
+        # (b) sharper, for samplers in which the first pair becomes rows 0,1 (then the 2016 subtrees are disjoint)
+        if heads != {(pc_[:6], pc_[6:12])}:
+            extra['torch_N3_subtrees_without_row_structure'] = extra.get('torch_N3_subtrees_without_row_structure', 0) + 1
+            continue
+        nexp = dom.SP_ORDER[2]
+        desc = []
+        ok = True
+        for cls in sorted(by):
+            cnt = by[cls]
+            vals = sorted(set(cnt.values()))
+            ok &= (len(cnt) == nexp and len(vals) == 1)
+            desc.append({'coins': cls, 'leaves': int(sum(cnt.values())), 'distinct_tables': len(cnt), 'leaves_per_table_min_max': [vals[0], vals[-1]]})
+        if not ok:
+            viol.append(V('C16/torch/random_clifford/N3/not-uniform', item,
+                          'torchclifford random_clifford(3) below the first pair %s: tables not drawn equally often, or not exactly %d distinct tables' % (list(pc_), nexp),
+                          desc, '%d distinct tables, equally often in each class' % nexp))
+            continue
+        if not samples:
+            samples.append({'torch random_clifford': 3, 'first_pair': list(pc_), 'classes': desc, 'residual_mass_of_subtree': _residual(st, rootA=pc_)})
+    return {'n': n, 'nt': nt, 'viol': viol, 'extra': extra, 'samples': samples}
+
+
 # ------------------------------------------------------------------ conventions / ownership
 def conventions():
     out = {'rng_ownership': rng.selfcheck()}
@@ -1012,4 +1098,17 @@ def legs(tier):
                    bound='torchclifford random_clifford_map(2): validity and conditional sign fairness on every stream below '
                          + ('5 of the 15 possible first draws g1 (capped in quick)' if quick else 'each of the 15 first draws g1')
                          + ', rejection bounded to +%d coins' % (0 if quick else 2)))
+    # torch N=3: subtrees below a first anticommuting pair
+    G3 = ref.all_g(3)
+    A3 = ref.anti_mat(G3)
+    sd = int(os.environ.get('VERIF_SEED', '0') or 0)
+    pairs = []
+    for t in range(12 if quick else 96):
+        i1 = 1 + (11 * t + 7 * sd + 20) % 63
+        js = [j for j in range(64) if A3[i1, j]]
+        j1 = js[(5 * t + 3 * sd + 9) % len(js)]
+        pairs.append([[int(x) for x in G3[i1]] + [int(x) for x in G3[j1]], 2 if quick else 4])
+    out.append(Leg('torch_uniform_N3_subtrees', fn_n3_torch, pairs, chunk=1, exhaustive=False, supplementary=True, timeout=3000, probe=0,
+                   bound='torchclifford random_clifford(3): %d of the 2016 subtrees below the first anticommuting pair (g1,g2) (VERIF_SEED rotates which): every leaf a valid table with rows 0,1 = (g1,g2), '
+                         '720 distinct tables per subtree equally often within each coin-length class (+%d coins of rejection)' % (len(pairs), 2 if quick else 4)))
     return out
